@@ -8,7 +8,7 @@ META = {
     "technique": "Coq proof for the pattern part (engine soundness + per-partition run sets of the SASE model) and for windows (partitioned-window decomposition lemmas of the Window area) + metamorphic oracle: outputs = union of per-key replays, on the real engine",
     "design_ref": "DESIGN.md §7 C04",
     "level_text": "Pattern part: the SASE model (tied per event to sase.rs) keeps one run set per key and only advances the event's own partition; C01's theorem gives that matches consist of events consumed by one run. Window part: C12_partition_partitioned / C13_*_partitioned (Window area). The property's own oracle (per-key replay) is run on the real SaseEngine and on real Engine programs with windows/aggregates.",
-    "level_note": "Proved for patterns (C04_matches_single_key / C04_runs_single_key, all patterns, streams, configurations): events with different partition values never appear in the same match or stored run. The decomposition theorem 'output = union of per-key runs' is NOT proved for patterns (only tied by the metamorphic oracle and the model correspondence). .not clauses are excluded from C04's program class (the engine applies them across partitions, which is what C01/C02 pin). Backpressure limits never bind in the generated cases (default 10000). Trusted: Coq kernel, models (differential tie), harness, Python driver",
+    "level_note": "Proved for patterns (C04_matches_single_key / C04_runs_single_key, all patterns, streams, configurations): events with different partition values never appear in the same match or stored run. Also proved: C04_sequence_patterns_decompose (no `all`, no .not, stream within the run limit): output = union of the per-key runs, up to order. The decomposition theorem 'output = union of per-key runs' is NOT proved for patterns (only tied by the metamorphic oracle and the model correspondence). .not clauses are excluded from C04's program class (the engine applies them across partitions, which is what C01/C02 pin). Backpressure limits never bind in the generated cases (default 10000). Trusted: Coq kernel, models (differential tie), harness, Python driver",
 }
 
 
